@@ -57,10 +57,7 @@ ASSUMPTIONS = ["species labels are disjoint from reaction ids (the views put bot
                "default node_attr_keys=('kind',) and edge_attr_keys=('role','stoich'); integer_ids=False (integer_ids=True only inside the "
                "one-object sequences, compared with a fresh object)",
                "stoichiometric coefficients are positive integers", "no max_depth / timeout given to the canonicaliser"]
-TESTED_NOT_PROVED = ["orbit sets of the canonicaliser: the slot-based union-find of _orbits_from_perms against the relation "
-                     "'exchangeable by a structure-preserving self-map' (C18_orbits_partial proves that this relation is the one read off the "
-                     "minimal leaves; the union-find step is compared with brute force and with the model on every case)",
-                     "WLCanonicalizer (documented as approximate): its canonical graph is isomorphic to the view and its colour cells "
+TESTED_NOT_PROVED = ["WLCanonicalizer (documented as approximate): its canonical graph is isomorphic to the view and its colour cells "
                      "never split a true orbit (oracle only)",
                      "VF2 enumerates exactly the self-isomorphisms (premise of C18_vf2_count, compared per case)",
                      "graph()/orbits()/has_nontrivial_automorphism()/canonical()/iter()/detect_automorphisms() agree with summary() (oracle)"]
@@ -953,7 +950,7 @@ def gen_cases(tier, rng):
     return cases
 
 
-LEVEL_TEXT = ("Machine-checked proof (Coq, 19 theorems, closed under the global context) over an executable model of CRNCanonicalizer / "
+LEVEL_TEXT = ("Machine-checked proof (Coq, 20 theorems, closed under the global context) over an executable model of CRNCanonicalizer / "
               "CRNAutomorphism and the two network views, for ALL views: the canonical graph is the view relabelled by a bijection onto "
               "k+1..k+n (clause 1); a view renamed by a map injective on its nodes and presented in any other node/arc order gets the same "
               "minimal label and the identical canonical graph (clause 2: signature/label/initial partition equivariant, generic IR leaf "
@@ -961,13 +958,14 @@ LEVEL_TEXT = ("Machine-checked proof (Coq, 19 theorems, closed under the global 
               "canonical graphs force isomorphic views (clause 3); the minimal leaves are a duplicate-free enumeration of the structure-"
               "preserving self-maps, and so is the reference enumerator the VF2 tool is compared with (clause 4, counts); fuel sufficiency "
               "of search and refinement; every view of a network lies in the theorems' domain; clause 2 also on networks (closed form of the "
-              "bipartite view; species view). Orbits: proved for the CRNAutomorphism model (union-find = exchangeability classes); for the "
-              "canonicaliser the relation and the sound half of its slot-based union-find are proved, the complete half is tested. The model is tied to the Python code on every run by comparing the view graph, every _refine "
+              "bipartite view; species view); the reported orbits of both tools are exactly the exchangeability classes (the slot-based "
+              "union-find of _orbits_from_perms with its emptied slots and duplicated prefix positions is modelled and proved; VF2 itself is an "
+              "explicit, monitored premise). The model is tied to the Python code on every run by comparing the view graph, every _refine "
               "argument/result, the canonical permutation and label string, all minimal leaves, orbits, canonical graph, the VF2 "
               "count/orbits and the decidable premises, on an exhaustive small scope plus seeded random, ring/star, long, adversarially "
               "named networks and one-object analysis sequences.")
 LEVEL_NOTE = ("Trusted: Coq kernel + vm_compute; the hand-written model and the harness interning (rank in Python string order); "
               "networkx DiGraph/relabel_nodes semantics; VF2 as an enumerator of self-isomorphisms (explicit premise, monitored). "
-              "Tested, not proved: the canonicaliser's orbit union-find; WLCanonicalizer (approximate by its "
+              "Tested, not proved: WLCanonicalizer (approximate by its "
               "documentation) only for 'isomorphic to the view' and 'never splits a true orbit'. Known finding C18:view-id-collision: a species "
               "label equal to a reaction id merges two view nodes (refuted-style witness theorem).")
